@@ -35,3 +35,12 @@ Definition negated_ranges (vocab : N) (rs : list (N * N)) : option (list (N * N)
     let '(current, acc) := neg_loop (sort_ranges rs) 0 [] in
     Some (if current <=? vocab - 1 then acc ++ [(current, vocab - 1)] else acc)
   else None.
+
+(* ---------- complement terminals (lark/compiler.rs, Atom::Not) ---------- *)
+From LLG Require Import Regex.
+(* every byte but the marker that special tokens start with *)
+Definition no_marker_set : bset := N.lxor bset_all (bset_single 255).
+Definition no_marker_text : regex := Rep (Bytes no_marker_set) 0 None.
+(* `guard`: the compiled complement is intersected with the marker-free strings *)
+Definition lark_not (guard : bool) (r : regex) : regex :=
+  if guard then And (Not r) no_marker_text else Not r.
